@@ -508,6 +508,7 @@ func main() {
 	streams(maxLen)
 	sets()
 	streamSets()
+	mapTwins(maxLen)
 	r.Cov["states"] = inputs
 	r.Cov["transitions"] = evals
 	r.Cov["traces_validated_against_impl"] = evals
